@@ -7,6 +7,7 @@ import Jasm.Model.Parser
 import Jasm.Model.Macro
 import Jasm.Model.Pipeline
 import Jasm.Spec.Den
+import Jasm.Spec.Objdump
 /-!
 # Line-protocol driver: one JSON request per line on stdin, one JSON reply per line on stdout.
 
@@ -86,6 +87,51 @@ def jsonOfResult : Result → Json
   | .bool b => .bool b
   | .list l => .arr (l.map fun s => Json.str (strOf s)).toArray
   | .stream s => .str (strOf s)
+
+def strField (j : Json) (k : String) : Except String Str := do
+  let s ← j.getObjValAs? String k
+  pure s.toList
+
+def optStrField (j : Json) (k : String) : Option Str :=
+  match j.getObjVal? k with
+  | .ok (.str s) => some s.toList
+  | _ => none
+
+def pairsOf : Str → List (Char × Char)
+  | a :: b :: t => (a, b) :: pairsOf t
+  | _ => []
+
+def operandOfJson (j : Json) : Except String Operand := do
+  let k ← j.getObjValAs? String "k"
+  match k with
+  | "imm" => pure (.imm (← strField j "v"))
+  | "reg" => pure (.reg (← strField j "r"))
+  | "target" => pure (.target (← strField j "h"))
+  | "star" => pure (.star (← strField j "r"))
+  | "mem" =>
+    let bc := match optStrField j "b", optStrField j "c" with
+      | some b, some c => some (b, c)
+      | _, _ => none
+    pure (.mem ((optStrField j "disp").getD []) (optStrField j "a") bc)
+  | _ => throw "bad operand kind"
+
+def lineSpecOfJson (j : Json) : Except String LineSpec := do
+  let k ← j.getObjValAs? String "k"
+  match k with
+  | "inst" => do
+    let ops ← (← j.getObjValAs? (Array Json) "ops").toList.mapM operandOfJson
+    pure (.inst {
+      indent := ← j.getObjValAs? Nat "indent", addr := ← strField j "addr",
+      bytes := pairsOf (← strField j "bytes"), pad := ← j.getObjValAs? Nat "pad",
+      mnem := ← strField j "mnem", gap := ← j.getObjValAs? Nat "gap", ops := ops,
+      annot := optStrField j "annot", comment := optStrField j "comment" })
+  | "cont" => pure (.cont (← j.getObjValAs? Nat "indent") (← strField j "addr") (pairsOf (← strField j "bytes")))
+  | "label" => pure (.label (← strField j "addr") (← strField j "name"))
+  | "blank" => pure .blank
+  | "header" => pure (.header (← strField j "name") (← strField j "format"))
+  | "sect" => pure (.sect (← strField j "name"))
+  | "dots" => pure .dots
+  | _ => throw "bad line kind"
 
 def getInsts (j : Json) : Except String (M (List Inst)) :=
   match j.getObjVal? "insts" with
@@ -207,6 +253,12 @@ def handle (st : Config) (j : Json) : Except String (Config × Json) := do
           ("first", strs first), ("all", strs all), ("firstAddr", strs firstA), ("allAddr", strs allA),
           ("spec", spec)])
       pure (st', replyM body id)
+  | "linespec" => do
+    let ls ← (← j.getObjValAs? (Array Json) "lines").toList.mapM lineSpecOfJson
+    pure (st, Json.mkObj [("ok", Json.mkObj [
+      ("text", .str (strOf (renderListing ls))),
+      ("lines", .arr (ls.map fun l => Json.str (strOf (renderLine l))).toArray),
+      ("expected", .arr ((expectedInsts ls).map jsonOfInst).toArray)])])
   | "objdumpArgs" => do
     pure (st, Json.mkObj [("ok", .arr ((objdumpArgs (st.style.getD .att) (st.sections.getD [])).map
       fun s => Json.str (strOf s)).toArray)])
